@@ -349,4 +349,3 @@ Proof.
   - apply forallb_forall. intros n Hn. assert (Hb : In n (dlabs body)) by (eapply Permutation_in; [exact P|exact Hn]).
     pose proof (found_all n body Hb Kstop) as F. destruct (fl_body n body Kstop); [reflexivity|contradiction].
 Qed.
-Print Assumptions labels_ok_from_source.
